@@ -361,7 +361,7 @@ func universal(sc *Scn, x *vrt.Sched, w *World) []Finding {
 			continue // Stop may have come before the request was read
 		}
 		for k, op := range cs.Ops {
-			if isUnbind(op) || op == "garbage" || op == "compare" || op == "starttls-silent" {
+			if isUnbind(op) || op == "garbage" || op == "compare" || op == "starttls-silent" || op == "starttls-badhello" {
 				break
 			}
 			if h := cs.H[k+1]; h != nil && h.Panic != "" {
